@@ -46,7 +46,8 @@ HintOf(st, ln) ==
                           ln.reg[j].n = n /\ [id |-> ln.reg[j].id, n |-> n] \notin st.reg}}
     IN IF ev.t = "C" /\ ev.p.t = "REGISTER" /\ rackIdx # 0 /\ ln.outC[rackIdx].rc = 0
           THEN [tid |-> ln.outC[rackIdx].tid, mid |-> 0]
-       ELSE IF ev.t = "C" /\ ev.p.t = "SUBSCRIBE" /\ newReg(ev.p.topic) # {}
+       \* (a REGACK for a sleeping client is buffered: the new registration is visible in the projection only)
+       ELSE IF ev.t = "C" /\ ev.p.t \in {"SUBSCRIBE", "REGISTER"} /\ newReg(ev.p.topic) # {}
           THEN [tid |-> SetMin(newReg(ev.p.topic)), mid |-> 0]
        ELSE IF ev.t = "B" /\ ev.m.t = "PUBLISH" /\ regIdx # 0
           THEN [tid |-> ln.outC[regIdx].tid, mid |-> ln.outC[regIdx].mid]
